@@ -606,3 +606,8 @@ Section Complete.
       apply perturb_clean. intros [E|A]; auto.
   Qed.
 End Complete.
+
+(* validate_calcs(output_addrs=None): the list of all formula cells is an
+   admissible list of outputs *)
+Lemma all_formulas_lt W o : In o (all_formulas W) -> o < wb_n W.
+Proof. unfold all_formulas. rewrite filter_In, in_seq. lia. Qed.
